@@ -89,7 +89,16 @@ type Lemma struct {
 	Props  []string
 }
 
+type LangDirective struct {
+	Name string
+	Kind string   // entries | unmapped | regexp
+	Args []string // table names / literals
+	Pkg  string
+	Text string
+}
+
 type ContractSet struct {
+	LangDirs  []*LangDirective
 	Contracts map[string]*Contract
 	Specs     map[string]*SpecFn
 	Lemmas    map[string]*Lemma
@@ -100,7 +109,9 @@ var funcHdr = regexp.MustCompile(`^func\s+(?:\(\s*\*?\s*([A-Za-z_][A-Za-z0-9_]*)
 var specHdr = regexp.MustCompile(`^spec\s+([A-Za-z_][A-Za-z0-9_]*)\s*\(([^)]*)\)\s*=\s*(.*)$`)
 var lemmaHdr = regexp.MustCompile(`^lemma\s+([A-Za-z_][A-Za-z0-9_]*)\s*\(([^)]*)\)\s*(?:\[([^\]]*)\])?\s*:\s*(.*)$`)
 
-var clauseKeywords = []string{"func", "spec", "lemma", "requires", "ensures", "modifies", "loop", "use", "assert", "inline", "trusted", "pure"}
+var langHdr = regexp.MustCompile(`^lang\s+([A-Za-z_][A-Za-z0-9_]*)\s*=\s*([a-z]+)\((.*)\)\s*$`)
+
+var clauseKeywords = []string{"func", "spec", "lemma", "lang", "requires", "ensures", "modifies", "loop", "use", "assert", "inline", "trusted", "pure"}
 
 func startsKeyword(s string) string {
 	for _, k := range clauseKeywords {
@@ -367,6 +378,20 @@ func (cs *ContractSet) parse(src, file, pkgPath string) {
 				}
 			}
 			cs.Specs[sf.Name] = sf
+			cur = nil
+		case "lang":
+			m := langHdr.FindStringSubmatch(rc.text)
+			if m == nil {
+				cs.errf(file, rc.line, "bad lang directive %q", rc.text)
+				continue
+			}
+			ld := &LangDirective{Name: m[1], Kind: m[2], Pkg: pkgPath, Text: rc.text}
+			for _, a := range splitTopLevel(m[3], ',') {
+				if a = strings.TrimSpace(a); a != "" {
+					ld.Args = append(ld.Args, a)
+				}
+			}
+			cs.LangDirs = append(cs.LangDirs, ld)
 			cur = nil
 		case "lemma":
 			m := lemmaHdr.FindStringSubmatch(rc.text)
